@@ -4,7 +4,9 @@
    an outer join -- the plans return the same rows (as lists).
    Under the NULL-supplying side of an outer join, and for FULL joins, the push changes the result
    (pushdown_outer_unsound, pushdown_full_unsound), and so does a push decided from the columns
-   the rule happens to see (push_blind_refuted): both are what PredicatePushdownRule does. *)
+   the rule happened to see (push_blind_refuted): both are what PredicatePushdownRule DID before
+   /repo commit 2cb4862; the repaired rule (push_decision) makes sound pushes only
+   (push_decision_sound, pushdown_rule_sound). *)
 From Coq Require Import ZArith List Bool Lia Permutation.
 From TV Require Import Model.SqlSpec Proof.SqlSpecLaws Model.QuerySpec Proof.QueryExprLaws Proof.QueryLawsBase Model.Pushdown.
 Import ListNotations.
@@ -179,9 +181,34 @@ Theorem pushdown_full_unsound :
   plan_left JFull on 1 1 [[VInt 1]; [VInt 3]] [[VInt 3]] p = [[VInt 1; VNull]; [VNull; VInt 3]].
 Proof. cbv zeta. repeat split; vm_compute; reflexivity. Qed.
 
-(* the rule decides from the columns it sees: a.c = 1 AND b.c IN (3) goes to the left input *)
+(* HISTORICAL (before /repo commit 2cb4862, finding F-C19-4): the rule decided from the columns
+   it saw: a.c = 1 AND b.c IN (3) went to the left input *)
 Theorem push_blind_refuted :
   let p := EAnd (ECmp CEq (ECol 0) (ELit (VInt 1))) (EIn false (ECol 1) [ELit (VInt 3)]) in
-  push_decision 1 p = PLeft /\ only_left 1 p = false.
-Proof. cbv zeta. split; reflexivity. Qed.
+  push_decision_old 1 p = PLeft /\ only_left 1 p = false /\ push_decision JInner 1 p = PStay.
+Proof. cbv zeta. repeat split; reflexivity. Qed.
 
+(* the repaired rule only ever makes the pushes proved sound above *)
+Theorem push_decision_sound : forall k wl p,
+  (push_decision k wl p = PLeft -> only_left wl p = true /\ left_push_ok k = true) /\
+  (push_decision k wl p = PRight -> only_right wl p = true /\ right_push_ok k = true).
+Proof.
+  intros k wl p. unfold push_decision, only_left, only_right.
+  destruct (all_sides wl p) as [[] []]; cbn [fst snd negb];
+    destruct (left_push_ok k) eqn:L, (right_push_ok k) eqn:R; split; intros H; try discriminate; split; reflexivity.
+Qed.
+
+Theorem pushdown_rule_sound : forall k on p wl wr L R,
+  (forall l, In l L -> length l = wl) ->
+  match push_decision k wl p with
+  | PLeft => plan_left k on wl wr L R p = plan_before k on wl wr L R p
+  | PRight => plan_right k on wl wr L R p = plan_before k on wl wr L R p
+  | PStay | POther => True
+  end.
+Proof.
+  intros k on p wl wr L R HL. destruct (push_decision_sound k wl p) as [A B].
+  destruct (push_decision k wl p); try exact I.
+  - destruct (A eq_refl) as [O K]. now apply pushdown_left_sound.
+  - destruct (B eq_refl) as [O K]. now apply pushdown_right_sound.
+Qed.
+Definition rule_sound_lemma := pushdown_rule_sound.
